@@ -1,9 +1,212 @@
 //go:build verif
 
 // Machine-checked contracts for package lexer (read by /verif/govc; comments only).
+//
+// C01: lexing is total and tokens are located.
+//   - sweep (K1): no function of this package has a reachable panic, for any input;
+//   - termination (K4): every loop carries a `decreases` measure over the ghost amount of input
+//     that is still unread (bufio.Reader.g_rem, moved only by the assumed contracts of
+//     ReadRune / Discard below), so no read* helper and no NextToken call can loop;
+//   - tokens (K2): every token NextToken hands out has a type and a line inside the input.
 
 package lexer
+
+import (
+	"bufio"
+
+	"github.com/ysugimoto/falco/v2/token"
+)
+
+var _ = token.EOF
+
+var _ = bufio.NewReader
+
+// ---- the input model (ASSUMED): a finite byte stream -------------------------------------------------
+// g_rem is the number of bytes not yet consumed. ReadRune consumes 1..4 of them or fails and
+// consumes nothing; Discard consumes what it reports; Peek consumes nothing and cannot see past
+// the end.
+//@ ghost field bufio.Reader.g_rem int
+
+//@ extern (*bufio.Reader).ReadRune [C01]
+//@   ensures err == nil ==> size >= 1 && size <= 4 && size <= old(b.g_rem)
+//@   ensures err != nil ==> size == 0 && old(b.g_rem) == 0
+//@   ghost-effect b.g_rem = old(b.g_rem) - size
+
+//@ extern bufio.NewReader [C01]
+//@   ensures result != nil && fresh(result) && result.g_rem >= 0 && result.g_rem <= 576460752303423488
+
+//@ extern (*bufio.Reader).Discard [C01]
+//@   ensures discarded >= 0 && discarded <= old(b.g_rem) && (n >= 0 ==> discarded <= n)
+//@   ensures err == nil ==> discarded == n
+//@   ghost-effect b.g_rem = old(b.g_rem) - discarded
+
+//@ extern (*bufio.Reader).Peek [C01]
+//@   ensures err == nil ==> n <= b.g_rem
+
+// ---- lexer state -------------------------------------------------------------------------------------
+// 2^60: far beyond any input; keeps line arithmetic away from wrap-around.
+// lines + unread bytes (+1 for the line closed at end of input) never grows: no wrap-around of l.line
+//@ pred okL(l *Lexer) = l != nil && l.r != nil && l.buffer != nil && l.r.g_rem >= 0 && l.r.g_rem <= 1152921504606846976 && l.line >= 1 && l.line <= 1152921504606846976 && l.line + l.r.g_rem + b2i(!l.isEOF) <= 1152921504606846976
+//@ pred okTok(t token.Token, l *Lexer) = t.Type != "" && t.Line >= 1 && t.Line <= l.line
+//@ pred okPeeks(l *Lexer) = forall k int :: 0 <= k && k < len(l.peeks) ==> l.peeks[k].Type != "" && l.peeks[k].Line >= 1 && l.peeks[k].Line <= l.line
+
+// what is still to be lexed: unread bytes plus the character in hand. Token-level progress is
+// lexicographic in (lexG, number of queued tokens).
+//@ pred lexG(l *Lexer) = l.r.g_rem + b2i(l.char != 0)
+// 0 when the next queued token is the end-of-input token (queueing it is the one step that does not
+// shrink the input), else 1: token-level progress is lexicographic in (lexG, lexH, queue length)
+//@ pred lexH(l *Lexer) = b2i(len(l.peeks) == 0 || l.peeks[0].Type != token.EOF)
+
+//@ func (*Lexer).readChar [C01]
+//@   requires okL(l)
+//@   ensures okL(l) && l.r == old(l.r) && l.peeks == old(l.peeks) && l.isEOF == old(l.isEOF)
+//@   ensures [progress-or-eof] l.r.g_rem < old(l.r.g_rem) || (l.char == 0 && l.r.g_rem == old(l.r.g_rem))
+//@   ensures [progress-unless-at-end] old(l.r.g_rem) >= 1 ==> l.r.g_rem < old(l.r.g_rem)
+//@   ensures [consumes] lexG(l) <= old(lexG(l)) && (old(l.char) != 0 ==> lexG(l) < old(lexG(l)))
+//@   ensures [lines-only-grow] l.line >= old(l.line)
+
+//@ func (*Lexer).skipBytes [C01]
+//@   requires okL(l)
+//@   ensures okL(l) && l.r == old(l.r) && l.peeks == old(l.peeks) && l.isEOF == old(l.isEOF) && l.line == old(l.line)
+//@   ensures l.r.g_rem <= old(l.r.g_rem)
+//@   ensures [consumes] lexG(l) <= old(lexG(l))
+
+//@ func (*Lexer).peekChar [C01]
+//@   requires okL(l)
+//@   pure
+//@   ensures result != 0 ==> l.r.g_rem >= 1
+
+//@ func collect [C01]
+//@   ensures result != nil
+
+//@ func (*Lexer).NewLine [C01]
+//@   requires l != nil && l.buffer != nil
+//@   ensures l.line == old(l.line) + 1 && l.buffer != nil && l.r == old(l.r) && l.peeks == old(l.peeks) && l.isEOF == old(l.isEOF) && l.char == old(l.char)
+
+//@ func (*Lexer).peekUntil [C01]
+//@   requires okL(l)
+//@   pure
+//@   ensures err == nil ==> len(result) >= 1
+//@   loop 1 invariant peekBytes >= 0 && peekBytes <= l.r.g_rem
+//@   loop 1 decreases l.r.g_rem - peekBytes
+
+//@ func (*Lexer).skipWhitespace [C01]
+//@   requires okL(l)
+//@   ensures okL(l) && l.r == old(l.r) && l.peeks == old(l.peeks) && l.isEOF == old(l.isEOF) && l.r.g_rem <= old(l.r.g_rem)
+//@   ensures [lines-only-grow] l.line >= old(l.line)
+//@   ensures [consumes] lexG(l) <= old(lexG(l))
+//@   loop 1 invariant okL(l) && l.r == old(l.r) && l.peeks == old(l.peeks) && l.isEOF == old(l.isEOF) && l.r.g_rem <= old(l.r.g_rem) && l.line >= old(l.line) && lexG(l) <= old(lexG(l))
+//@   loop 1 decreases l.r.g_rem + b2i(l.char != 0)
+
+//@ func (*Lexer).readString [C01]
+//@   requires okL(l)
+//@   ensures okL(l) && l.r == old(l.r) && l.peeks == old(l.peeks) && l.isEOF == old(l.isEOF) && l.r.g_rem <= old(l.r.g_rem)
+//@   ensures [lines-only-grow] l.line >= old(l.line)
+//@   ensures [consumes] lexG(l) <= old(lexG(l))
+//@   ensures [consumes-one] old(l.char) != 0 ==> lexG(l) < old(lexG(l))
+//@   loop 1 invariant okL(l) && l.r == old(l.r) && l.peeks == old(l.peeks) && l.isEOF == old(l.isEOF) && l.r.g_rem <= old(l.r.g_rem) && l.line >= old(l.line) && lexG(l) <= old(lexG(l))
+//@   loop 1 invariant old(l.char) != 0 ==> lexG(l) < old(lexG(l))
+//@   loop 1 decreases l.r.g_rem + b2i(l.char != 0)
+
+//@ func (*Lexer).readBracketString [C01]
+//@   requires okL(l)
+//@   ensures okL(l) && l.r == old(l.r) && l.peeks == old(l.peeks) && l.isEOF == old(l.isEOF) && l.r.g_rem <= old(l.r.g_rem)
+//@   ensures [lines-only-grow] l.line >= old(l.line)
+//@   ensures [consumes] lexG(l) <= old(lexG(l))
+//@   ensures [consumes-one] old(l.char) != 0 ==> lexG(l) < old(lexG(l))
+//@   loop 1 invariant okL(l) && l.r == old(l.r) && l.peeks == old(l.peeks) && l.isEOF == old(l.isEOF) && l.r.g_rem <= old(l.r.g_rem) && l.line >= old(l.line) && lexG(l) <= old(lexG(l))
+//@   loop 1 invariant old(l.char) != 0 ==> lexG(l) < old(lexG(l))
+//@   loop 1 decreases l.r.g_rem + b2i(l.char != 0)
+
+//@ func (*Lexer).readExponent [C01]
+//@   requires okL(l) && buf != nil
+//@   ensures okL(l) && l.r == old(l.r) && l.peeks == old(l.peeks) && l.isEOF == old(l.isEOF) && l.r.g_rem <= old(l.r.g_rem)
+//@   ensures [lines-only-grow] l.line >= old(l.line)
+//@   ensures [consumes] lexG(l) <= old(lexG(l))
+//@   loop 1 invariant okL(l) && l.r == old(l.r) && l.peeks == old(l.peeks) && l.isEOF == old(l.isEOF) && l.r.g_rem <= old(l.r.g_rem) && l.line >= old(l.line) && lexG(l) <= old(lexG(l))
+//@   loop 1 decreases l.r.g_rem + b2i(l.char != 0)
+
+//@ func (*Lexer).readNumber [C01]
+//@   requires okL(l)
+//@   ensures okL(l) && l.r == old(l.r) && l.peeks == old(l.peeks) && l.isEOF == old(l.isEOF) && l.r.g_rem <= old(l.r.g_rem)
+//@   ensures [lines-only-grow] l.line >= old(l.line)
+//@   ensures [consumes] lexG(l) <= old(lexG(l))
+//@   ensures [consumes-one] isDecimalDigit(old(l.char)) ==> lexG(l) < old(lexG(l))
+//@   loop * invariant okL(l) && l.r == old(l.r) && l.peeks == old(l.peeks) && l.isEOF == old(l.isEOF) && l.r.g_rem <= old(l.r.g_rem) && l.line >= old(l.line) && lexG(l) <= old(lexG(l))
+//@   loop 1 invariant lexG(l) < old(lexG(l))
+//@   loop 2 invariant lexG(l) < old(lexG(l))
+//@   loop 3 invariant lexG(l) < old(lexG(l)) || l.char == old(l.char)
+//@   loop 4 invariant isDecimalDigit(old(l.char)) ==> lexG(l) < old(lexG(l))
+//@   loop * decreases l.r.g_rem + b2i(l.char != 0)
+
+//@ func (*Lexer).readEOL [C01]
+//@   requires okL(l)
+//@   ensures okL(l) && l.r == old(l.r) && l.peeks == old(l.peeks) && l.isEOF == old(l.isEOF) && l.r.g_rem <= old(l.r.g_rem)
+//@   ensures [lines-only-grow] l.line >= old(l.line)
+//@   ensures [consumes] lexG(l) <= old(lexG(l))
+//@   loop 1 invariant okL(l) && l.r == old(l.r) && l.peeks == old(l.peeks) && l.isEOF == old(l.isEOF) && l.r.g_rem <= old(l.r.g_rem) && l.line >= old(l.line) && lexG(l) <= old(lexG(l))
+//@   loop 1 decreases l.r.g_rem
+
+//@ func (*Lexer).readMultiComment [C01]
+//@   requires okL(l)
+//@   ensures okL(l) && l.r == old(l.r) && l.peeks == old(l.peeks) && l.isEOF == old(l.isEOF) && l.r.g_rem <= old(l.r.g_rem)
+//@   ensures [lines-only-grow] l.line >= old(l.line)
+//@   ensures [consumes] lexG(l) <= old(lexG(l))
+//@   loop 1 invariant okL(l) && l.r == old(l.r) && l.peeks == old(l.peeks) && l.isEOF == old(l.isEOF) && l.r.g_rem <= old(l.r.g_rem) && l.line >= old(l.line) && lexG(l) <= old(lexG(l))
+//@   loop 1 decreases l.r.g_rem + b2i(l.char != 0)
+
+//@ func (*Lexer).readIdentifier [C01]
+//@   requires okL(l)
+//@   ensures okL(l) && l.r == old(l.r) && l.peeks == old(l.peeks) && l.isEOF == old(l.isEOF) && l.r.g_rem <= old(l.r.g_rem)
+//@   ensures [lines-only-grow] l.line >= old(l.line)
+//@   ensures [consumes] lexG(l) <= old(lexG(l))
+//@   ensures [consumes-one] isLetter(old(l.char)) ==> lexG(l) < old(lexG(l))
+//@   ensures [progress-or-untouched] l.r.g_rem < old(l.r.g_rem) || l.char == old(l.char) || l.char == 0
+//@   loop 1 invariant okL(l) && l.r == old(l.r) && l.peeks == old(l.peeks) && l.isEOF == old(l.isEOF) && l.r.g_rem <= old(l.r.g_rem) && l.line >= old(l.line) && lexG(l) <= old(lexG(l))
+//@   loop 1 invariant lexG(l) < old(lexG(l)) || l.char == old(l.char)
+//@   loop 1 invariant l.r.g_rem < old(l.r.g_rem) || l.char == old(l.char) || l.char == 0
+//@   loop 1 decreases l.r.g_rem + b2i(l.char != 0)
+
+// ---- tokens ------------------------------------------------------------------------------------------
+
+// custom token types registered by the caller are real types
+//@ pred okCustoms(l *Lexer) = forall s string :: has(l.customs, s) ==> l.customs[s] != ""
+
+//@ func (*Lexer).NextToken [C01]
+//@   requires okL(l) && okPeeks(l) && okCustoms(l)
+//@   ensures okL(l) && okPeeks(l) && l.r == old(l.r)
+//@   ensures [token-typed] result.Type != ""
+//@   ensures [token-located] result.Line >= 1 && result.Line <= l.line
+//@   ensures [input-only-shrinks] l.r.g_rem <= old(l.r.g_rem)
+//@   ensures [progress] result.Type != token.EOF ==> lexG(l) < old(lexG(l)) || (lexG(l) == old(lexG(l)) && len(l.peeks) < old(len(l.peeks)))
+//@   ensures [no-regress] lexG(l) <= old(lexG(l)) && (lexG(l) == old(lexG(l)) ==> len(l.peeks) <= old(len(l.peeks)))
+//@   ensures [pops-queue-first] old(len(l.peeks)) > 0 ==> len(l.peeks) == old(len(l.peeks)) - 1 && lexG(l) == old(lexG(l)) && result.Type == old(l.peeks[0].Type)
+//@   loop 1 invariant okL(l) && l.r == old(l.r) && l.isEOF == old(l.isEOF) && l.r.g_rem <= old(l.r.g_rem) && l.line >= old(l.line) && l.peeks == old(l.peeks)
+//@   loop 1 invariant line >= 1 && l.line >= line
+//@   loop 1 invariant lexG(l) < old(lexG(l))
+//@   loop 1 decreases l.r.g_rem + b2i(l.char != 0)
+
+//@ func (*Lexer).PeekToken [C01]
+//@   requires okL(l) && okPeeks(l) && okCustoms(l)
+//@   ensures [lexer-ok] okL(l) && l.r == old(l.r)
+//@   ensures [peeked-typed] forall k int :: 0 <= k && k < len(l.peeks) ==> l.peeks[k].Type != ""
+//@   ensures [peeked-line-lo] forall k int :: 0 <= k && k < len(l.peeks) ==> l.peeks[k].Line >= 1
+//@   ensures [peeked-line-hi] forall k int :: 0 <= k && k < len(l.peeks) ==> l.peeks[k].Line <= l.line
+//@   ensures [no-regress] lexG(l) <= old(lexG(l)) && (result.Type != token.EOF ==> lexG(l) < old(lexG(l)) || len(l.peeks) <= old(len(l.peeks)))
+//@   ensures [queued] len(l.peeks) >= 1 && result.Type == l.peeks[0].Type
+//@   ensures [untouched-when-queued] old(len(l.peeks)) > 0 ==> len(l.peeks) == old(len(l.peeks)) && lexG(l) == old(lexG(l)) && l.peeks[0].Type == old(l.peeks[0].Type)
+//@   ensures [reads-when-empty] old(len(l.peeks)) == 0 && result.Type != token.EOF ==> lexG(l) < old(lexG(l))
+//@   ensures [at-most-one-queued] lexG(l) == old(lexG(l)) ==> len(l.peeks) <= old(len(l.peeks)) + 1
+//@   ensures [token-typed] result.Type != ""
+//@   ensures [token-located] result.Line >= 1 && result.Line <= l.line
 
 //@ func NewFromString [C01]
 //@   ensures [non-nil C01] result != nil && fresh(result)
 //@   assigns heap
+
+// the sweep: no reachable panic anywhere in the package
+//@ forall-funcs .* [C01]
+//@   requires? okL(l)
+//@   safe
+//@   terminates
+
